@@ -135,10 +135,11 @@ theorem reader_genbankFeatureParser :
     GbReader.fn_genbankFeatureParser = Spec.GbReader.fn_genbankFeatureParser ∧
     GbReader.fn_genbankFeatureParser_func0 = Spec.GbReader.fn_genbankFeatureParser_func0 := ⟨rfl, rfl⟩
 
-/-- `genbankContigParser` and its 1 function literal: every statement in normal form is the expected one -/
+/-- `genbankContigParser` and its 2 function literals (the filter of `pars.Until`, the parser): every statement in normal form is the expected one -/
 theorem reader_genbankContigParser :
     GbReader.fn_genbankContigParser = Spec.GbReader.fn_genbankContigParser ∧
-    GbReader.fn_genbankContigParser_func0 = Spec.GbReader.fn_genbankContigParser_func0 := ⟨rfl, rfl⟩
+    GbReader.fn_genbankContigParser_func0 = Spec.GbReader.fn_genbankContigParser_func0 ∧
+    GbReader.fn_genbankContigParser_func1 = Spec.GbReader.fn_genbankContigParser_func1 := ⟨rfl, rfl, rfl⟩
 
 /-- `makeGenbankOriginParser` and its 2 function literals: every statement in normal form is the expected one -/
 theorem reader_makeGenbankOriginParser :
